@@ -2,6 +2,7 @@
    allocated node>` out.  Node ids are shared with the Python side's object registry. -/
 import Lean.Data.Json
 import SqlglotModel.Model.Tree
+import SqlglotModel.Generated.C08
 
 open Lean (Json)
 open SqlglotModel.Tree
@@ -109,6 +110,23 @@ def handle (s : St) (line : String) : Except String (St × String) := do
     let idx ← jOptNat (← j.getObjVal? "idx")
     let ow ← (← j.getObjVal? "ow").getBool?
     return finish s (opSet fuel s.h n k v idx ow)
+  | "setneg" =>
+    let n ← (← j.getObjVal? "n").getNat?
+    let k ← (← j.getObjVal? "k").getStr?
+    let back ← (← j.getObjVal? "back").getNat?
+    return finish s (opSetNoneNeg fuel s.h n k back SqlglotModel.Generated.C08.negativeIndexNormalised)
+  | "transform" =>
+    let n ← (← j.getObjVal? "n").getNat?
+    let f ← (← j.getObjVal? "fun").getStr?
+    match opTransform fuel (builtinFun fuel f) s.h s.count n with
+    | some (h', nx, _) => let s' : St := { s with h := h', count := nx }; return (s', "ok|" ++ dump s')
+    | none => return (s, "fail|")
+  | "rc" =>
+    let n ← (← j.getObjVal? "n").getNat?
+    let f ← (← j.getObjVal? "fun").getStr?
+    match opReplaceChildren fuel (builtinFun fuel f) s.h s.count n with
+    | some (h', nx) => let s' : St := { s with h := h', count := nx }; return (s', "ok|" ++ dump s')
+    | none => return (s, "fail|")
   | "append" =>
     let n ← (← j.getObjVal? "n").getNat?
     let k ← (← j.getObjVal? "k").getStr?
@@ -132,7 +150,7 @@ def handle (s : St) (line : String) : Except String (St × String) := do
     | none => return (s, "fail|")
   | "copy" =>
     let n ← (← j.getObjVal? "n").getNat?
-    match opCopy fuel s.h n s.count with
+    match opDeepcopy fuel s.h n s.count with
     | some (h', nx, c) => let s' : St := { s with h := h', count := nx }; return (s', "copy " ++ toString c ++ "|" ++ dump s')
     | none => return (s, "fail|")
   | _ => throw "unknown op"
